@@ -339,15 +339,30 @@ func multiSplit(value string, seps ...string) []string {
 }
 
 func recursiveCheck(value []string, funcs []func(string) bool) bool {
-	for i := 0; i < len(value); i++ {
-		tempVal := strings.Join(value[:i+1], " ")
-		for _, j := range funcs {
-			if j(tempVal) && (len(value[i+1:]) == 0 || recursiveCheck(value[i+1:], funcs)) {
-				return true
+	n := len(value)
+	if n == 0 {
+		return false
+	}
+	// matched[i] records whether value[i:] can be split into consecutive
+	// groups that are each accepted by one of funcs. Filling the table from
+	// the end checks every group once instead of once per way of reaching it.
+	matched := make([]bool, n+1)
+	matched[n] = true
+	for i := n - 1; i >= 0; i-- {
+		for j := i; j < n && !matched[i]; j++ {
+			if !matched[j+1] {
+				continue
+			}
+			tempVal := strings.Join(value[i:j+1], " ")
+			for _, f := range funcs {
+				if f(tempVal) {
+					matched[i] = true
+					break
+				}
 			}
 		}
 	}
-	return false
+	return matched[0]
 }
 
 func in(value []string, arr []string) bool {
